@@ -96,6 +96,8 @@ type End struct {
 	rdl, wdl      deadline
 	CloseCount    int
 	wclosed       bool // CloseWrite was called
+	closeGate     chan struct{}
+	closesParked  int
 	stallEach     bool // every Write blocks until the harness commits it individually
 	pend          []*pendWrite
 }
@@ -271,8 +273,36 @@ func (e *End) Write(b []byte) (int, error) {
 	}
 }
 
+// StallClose makes Close park (after marking nothing) until ReleaseClose: a socket close that takes time.
+func (e *End) StallClose() {
+	e.mu.Lock()
+	e.closeGate = make(chan struct{})
+	e.mu.Unlock()
+}
+
+// ReleaseClose lets a parked Close proceed.
+func (e *End) ReleaseClose() {
+	e.mu.Lock()
+	g := e.closeGate
+	e.closeGate = nil
+	e.mu.Unlock()
+	if g != nil {
+		close(g)
+	}
+}
+
+// ClosesParked reports whether a Close call is currently parked.
+func (e *End) ClosesParked() int { e.mu.Lock(); defer e.mu.Unlock(); return e.closesParked }
+
 func (e *End) Close() error {
 	e.mu.Lock()
+	if g := e.closeGate; g != nil {
+		e.closesParked++
+		e.mu.Unlock()
+		<-g
+		e.mu.Lock()
+		e.closesParked--
+	}
 	e.CloseCount++
 	if e.closed {
 		e.mu.Unlock()
